@@ -1,5 +1,5 @@
 (* TypecheckMain.v — C03: the proved fragment `in_fragment` and the main induction. *)
-From Cedar Require Import Typecheck ValueProofs ConformProofs ExprEq TypecheckProofs TypecheckProofs2 TypecheckProofs3 TypecheckProofs4.
+From Cedar Require Import Typecheck ValueProofs ConformProofs ExprEq TypecheckProofs TypecheckProofs2 TypecheckProofs3 TypecheckProofs4 TypecheckIf.
 
 (* ---------------------------------------------------------------------------------------
    the proved fragment *)
@@ -12,7 +12,7 @@ Fixpoint in_fragment (e : expr) : bool :=
       in_fragment a && in_fragment b
   | UnApp _ a => in_fragment a
   | Like x _ | Is x _ => in_fragment x
-  | If c x y => in_fragment c && in_fragment x && in_fragment y && boolish x && boolish y
+  | If c x y => in_fragment c && in_fragment x && in_fragment y && boolish' x && boolish' y
   | HasAttr x _ | GetAttr x _ => is_path x
   | _ => false
   end.
@@ -40,7 +40,7 @@ Section Main.
     - apply sound_var. exact Henv.
     - apply andb_prop in Hf. destruct Hf as [Hf Hby]. apply andb_prop in Hf. destruct Hf as [Hf Hbx].
       apply andb_prop in Hf. destruct Hf as [Hf Hfy]. apply andb_prop in Hf. destruct Hf as [Hfc Hfx].
-      apply sound_if; [exact Hbx|exact Hby|apply IHe1; exact Hfc|apply IHe2; exact Hfx|apply IHe3; exact Hfy].
+      apply sound_if'; [exact Hbx|exact Hby|apply IHe1; exact Hfc|apply IHe2; exact Hfx|apply IHe3; exact Hfy].
     - apply andb_prop in Hf. destruct Hf as [H1 H2]. apply sound_and; [apply IHe1; exact H1|apply IHe2; exact H2].
     - apply andb_prop in Hf. destruct Hf as [H1 H2]. apply sound_or; [apply IHe1; exact H1|apply IHe2; exact H2].
     - destruct op.
